@@ -110,11 +110,75 @@ def mk_history(rng):
                           "markov_key": rng.choice([None, "opts-a", "opts-a", "opts-b"]), "fmt": fmt,
                           "opts": {"lex_in_grammar": True} if (fmt != "lopar" and rng.random() < 0.5) else {},
                           "times": rng.choice([1, 2])})
-        else:
+        elif rng.random() < 0.5:
             t = small_tree(rng)
             calls.append({"op": "transform", "name": rng.choice(["root_attach", "negra_mark_heads", "punctuation_root", "add_topnode"]),
                           "tree": proto.enc_tree(t), "sid": 1, "params": {}})
+        else:
+            # trace deletion with slash annotation: several co-indexed traces whose paths to their fillers overlap
+            cfg = treegen.Cfg(n_min=4, n_max=9, p_unary=0.2, p_punct=0.0, p_disc=0.0, none_fields=False,
+                              labels=["NP-SBJ-1", "WHNP-1", "S", "VP", "SBAR", "NP-2", "NP", "PP-3"])
+            t = treegen.gen_tree(rng, cfg)
+            for term in trees.terminals(t)[1:]:
+                if rng.random() < 0.45:
+                    term.data['label'] = "-NONE-"
+                    term.data['word'] = rng.choice(["*T*-1", "*-2", "*T*-3", "*U*", "0"])
+            params = {"slash": True}
+            if rng.random() < 0.7:
+                params["keepall"] = True
+            calls.append({"op": "transform", "name": "ptb_delete_traces", "tree": proto.enc_tree(t), "sid": 1, "params": params})
     return calls
+
+
+def trace_tree(rng):
+    """PTB-like tree with several co-indexed traces and fillers of different categories (paths to the fillers overlap)"""
+    from impl import mk_leaf, mk_node
+    if rng.random() < 0.5:
+        cfg = treegen.Cfg(n_min=4, n_max=9, p_unary=0.2, p_punct=0.0, p_disc=0.0, none_fields=False,
+                          labels=["NP-SBJ-1", "WHNP-1", "S", "VP", "SBAR", "NP-2", "NP", "PP-3"])
+        t = treegen.gen_tree(rng, cfg)
+        for term in trees.terminals(t)[1:]:
+            if rng.random() < 0.45:
+                term.data['label'] = "-NONE-"
+                term.data['word'] = rng.choice(["*T*-1", "*-2", "*T*-3", "*U*", "0"])
+        return t
+    # fillers high on the left, their traces deep on the right
+    fill = rng.sample(["WHNP", "NP", "PP", "ADVP", "WHADVP"], rng.randint(2, 3))
+    n = [0]
+
+    def leaf(pos, word):
+        n[0] += 1
+        return mk_leaf(n[0], pos, word, "--", "--", "--")
+    kids = []
+    for i, f in enumerate(fill):
+        kids.append(mk_node("%s-%d" % (f, i + 1), [leaf("WP", "w%d" % i)], edge="--", lemma="--", morph="--"))
+    inner = [leaf("VBD", "saw")]
+    order = list(range(len(fill)))
+    rng.shuffle(order)
+    for i in order:
+        inner.append(mk_node("NP", [leaf("-NONE-", rng.choice(["*T*-%d", "*-%d"]) % (i + 1))], edge="--", lemma="--", morph="--"))
+    vp = mk_node("VP", inner, edge="--", lemma="--", morph="--")
+    s2 = mk_node(rng.choice(["S", "SINV"]), [mk_node("NP-SBJ", [leaf("PRP", "he")], edge="--", lemma="--", morph="--"), vp],
+                 edge="--", lemma="--", morph="--")
+    sbar = mk_node("SBAR", kids[1:] + [s2], edge="--", lemma="--", morph="--") if len(kids) > 1 else s2
+    return mk_node("VROOT", [mk_node("SBARQ", [kids[0], sbar, leaf(".", "?")], edge="--", lemma="--", morph="--")],
+                   edge="--", lemma="--", morph="--")
+
+
+def hashseed_case(rng):
+    """the same calls in processes with different hash seeds: output must not depend on set/dict iteration order"""
+    calls = []
+    for _ in range(12):
+        params = {"slash": True}
+        if rng.random() < 0.8:
+            params["keepall"] = True
+        calls.append({"op": "transform", "name": "ptb_delete_traces", "tree": proto.enc_tree(trace_tree(rng)), "sid": 1, "params": params})
+    runs = cli.pmap(lambda hs: run_calls(calls, hashseed=hs), [0, rng.randint(1, 999), rng.randint(1000, 99999)], workers=3)
+    lines = []
+    for i in range(len(calls)):
+        for r in runs[1:]:
+            lines.append(Line("pred", "P.C18.eq", [proto.enc_s(runs[0][i]), proto.enc_s(r[i])], note="call %d under two hash seeds" % i))
+    return Case("hash-seeds", {"calls": [dict(c, tree="...") for c in calls]}, lines, nontrivial=True)
 
 
 def clone_sid(t):
@@ -292,4 +356,8 @@ def gen(seed, tier, scale):
     for _ in range((300 if tier == "quick" else 5000) * scale):
         rng = case_rng(seed, ID, idx)
         yield idx, append_case(rng)
+        idx += 1
+    for _ in range((6 if tier == "quick" else 100) * scale):
+        rng = case_rng(seed, ID, idx)
+        yield idx, hashseed_case(rng)
         idx += 1
